@@ -40,12 +40,21 @@ def validateObj (b : Nat) : M Unit := do
   let us ← readUnits o.chars o.size
   if Utf.validateUtf8 us ≠ 0 then throwE .unicodeError
 
+/-- a constructor body running after the member `m_buffer` was default-constructed: a body that
+    throws leaves no object (the member is destroyed during unwinding) -/
+def ctorThen (o : Nat) (body : M Unit) : M Unit := do
+  ctorDefault o
+  fun p => match body p with
+    | .ok a p' => .ok a p'
+    | .throw e p' => (match dtor o p' with | .ok _ p'' => .throw e p'' | .fault f p'' => .fault f p'' | .throw _ p'' => .throw e p'')
+    | .fault f p' => .fault f p'
+
 /-- a fresh result built as `char_buffer r; r.allocate(n); copy(...)` (substr, operator+, replace,
-    case mapping, conversions, codecs) in object `d` -/
-def fresh (d : Nat) (val : List Nat) : M Unit := do
-  ctorDefault d
-  allocate d val.length
-  writeData d 0 val
+    case mapping, conversions, codecs) in object `d`.  `r` is a local of the producing function: when
+    `allocate` throws it is destroyed during unwinding (and a result object never comes to exist), so
+    after `bad_alloc` there is no object `d` — the same shape as a constructor body (`ctorThen`). -/
+def fresh (d : Nat) (val : List Nat) : M Unit :=
+  ctorThen d (do allocate d val.length; writeData d 0 val)
 
 /-- `cleanup_utf8_buffer(init)`: a new buffer (in `t`) holding the repaired text of object `b` -/
 def cleanupInto (t b : Nat) : M Unit := do
@@ -71,15 +80,6 @@ def setBufCopy (o b : Nat) (m : Mode) : M Unit :=
 def setUtf8 (o : Nat) (us : List Nat) (m : Mode) : M Unit := do
   ctorUnits tmpA us
   withTemp tmpA (setBufMove o tmpA m)
-
-/-- a constructor body running after the member `m_buffer` was default-constructed: a body that
-    throws leaves no object (the member is destroyed during unwinding) -/
-def ctorThen (o : Nat) (body : M Unit) : M Unit := do
-  ctorDefault o
-  fun p => match body p with
-    | .ok a p' => .ok a p'
-    | .throw e p' => (match dtor o p' with | .ok _ p'' => .throw e p'' | .fault f p'' => .fault f p'' | .throw _ p'' => .throw e p'')
-    | .fault f p' => .fault f p'
 
 /-- `ST::string(const char *, size, validation)` -/
 def ctorText (o : Nat) (us : List Nat) (m : Mode) : M Unit := ctorThen o (setUtf8 o us m)
